@@ -1,6 +1,8 @@
 import Props.C10
 import Props.Driver
 import DroopProofs.SplitB
+import DroopProofs.PermBMeek
+import DroopProofs.CaseInitMeek
 /-!
 # C10 at run level: the count does not depend on the order of the ballot lines (all seven Gregory rule names)
 
@@ -23,8 +25,13 @@ by the two lines `(min m₁ m, r)` and `(m − min m₁ m, r)` gives exactly the
 entry in every logged view, duplicated; read from right to left (`splitLine_merge`) this is merging two adjacent identical lines.
 Together with reordering this covers merging any two lines with the same ranking.  Proof: `DroopProofs/SplitB.lean` (`XF_split`).
 
-The Meek family and QPQ, and the file-level presentation (comments, layout, nicknames) are decided by re-running the real code
-(C10 check) and by the reader theorems of C15.
+meek and warren (`meek_ballot_order`, strict rankings, i.e. every case inside `caseOK`; `DroopProofs/PermBMeek.lean`): what one
+ballot credits in a distribution depends on the state only through the keep factors, which no credit changes, and credits are
+additions — one induction over a ranking (`foldRank_blind`) gives that two ballots' steps commute and that the step does not care how
+the list is stored; every other step of the driver never reads the ballot list.
+
+meek-prf and QPQ, equal rankings, and the file-level presentation (comments, layout, nicknames) are decided by re-running the real
+code (C10 check) and by the reader theorems of C15.
 -/
 namespace Droop.C10
 open Droop
@@ -87,6 +94,26 @@ theorem gregory_ballot_order (p : Nat) (c : Case)
     · exact ⟨mplsCount (fixedArith p), fun s0 => by simp only [runRuleSt', hr], fun s0 => mpls_permB (fixedArith p) (fixed_lawful p) hπ s0⟩
   rw [ho, ho]
   exact hperm _
+
+/-- **the order of the ballot lines is irrelevant, meek and warren** (every case with strict rankings inside `caseOK`, every
+    fixed-point precision, every omega and both settings of `defeat_batch`) -/
+theorem meek_ballot_order (p : Nat) (c : Case) (hr : c.rule = "meek" ∨ c.rule = "warren") (hok : caseOK c = true)
+    {π : ∀ {β : Type}, List β → List β} (hπ : NatPerm π) :
+    runRuleSt (fixedArith p) (reorder π c) = (runRuleSt (fixedArith p) c).map (permB π) := by
+  have hk := caseOK_iff c hok
+  have hm : methodOf c.rule = .meek := by rcases hr with hr | hr <;> rw [hr] <;> rfl
+  have h0 := initState_minit (fixedArith p) (fixed_lawful p) c hm hk
+  have h1 : runRuleSt (fixedArith p) (reorder π c) = runRuleSt' (fixedArith p) c (permB π (initState (fixedArith p) c)) := by
+    unfold runRuleSt
+    rw [runRuleSt'_reorder, initState_reorder (fixedArith p) hπ]
+  rw [h1]
+  unfold runRuleSt
+  have hx := XMeek_of_natPerm (fixedArith p) (fixed_lawful p) hπ
+  rcases hr with hr | hr
+  · simp only [runRuleSt', hr]
+    exact meek_xB (fixedArith p) (fixed_lawful p) rfl hx _ _ _ h0
+  · simp only [runRuleSt', hr]
+    exact meek_xB (fixedArith p) (fixed_lawful p) rfl hx _ _ _ h0
 
 /-! ## splitting one ballot line in two, merging two identical adjacent lines into one -/
 
@@ -209,4 +236,9 @@ theorem natPerm_swapAt (i : Nat) : NatPerm (fun {β : Type} (l : List β) => swa
 /-- non-vacuity: reversing the ballot lines of a concrete case -/
 example : (reorder (fun {β : Type} (l : List β) => l.reverse) Driver.sample).ballots = [(1, [2]), (2, [1, 2])] := rfl
 
+end Droop.C10
+
+namespace Droop.C10
+/-- non-vacuity: the sample profile counted under meek is inside the domain of `meek_ballot_order` -/
+example : caseOK { Driver.sample with rule := "meek" } = true := by decide
 end Droop.C10
